@@ -20,6 +20,8 @@ import (
 	"github.com/tencent/goom/verifsim/simcore"
 	"github.com/tencent/goom/verifsim/simenv"
 	"github.com/tencent/goom/verifsim/world"
+	"github.com/tencent/goom/verifsim/zoo/fn"
+	"github.com/tencent/goom/verifsim/zoo/thunk"
 
 	_ "github.com/tencent/goom/verifsim/worlds/concw"
 	_ "github.com/tencent/goom/verifsim/worlds/hist"
@@ -82,6 +84,8 @@ func main() {
 
 	debug.SetGCPercent(-1)
 	simcore.GCFn = simenv.GC
+	thunk.SlotFn = simcore.CurTask
+	fn.SlotFn = simcore.CurTask
 
 	if *wname == "" {
 		*wname = world.PropWorld[*prop]
